@@ -131,6 +131,25 @@ def props_assumptions(prop_id):
     return True, list(zip(names, answers)), out
 
 
+def run_coqchk(prop_id, timeout=2400):
+    """coqchk -o on Props/<id>.vo and everything it depends on; returns {ok, cmd, axioms, tail, wall_s}."""
+    cmd = ['timeout', str(timeout), 'coqchk', '-silent', '-o', '-R', 'theories', 'ScaredV', f'ScaredV.Props.{prop_id}']
+    t0 = time.time()
+    with CoqLock():
+        p = subprocess.run(cmd, cwd=COQ, stdout=subprocess.PIPE, stderr=subprocess.STDOUT, text=True)
+    out = p.stdout
+    axioms = []
+    m = re.search(r'\* Axioms:(.*?)\n\s*\n\* Constants', out, re.S)
+    if m:
+        axioms = [a.strip() for a in m.group(1).split('\n') if a.strip() and a.strip() != '<none>']
+    names = [a.split(':')[0].strip() for a in axioms]
+    foreign = [a for a in names if a not in ALLOWED_AXIOMS and a.split('.')[-1] not in ALLOWED_AXIOMS]
+    clean = all(f'* {k}: <none>' in out for k in ('Constants/Inductives relying on type-in-type', 'Constants/Inductives relying on unsafe (co)fixpoints',
+                                                   'Inductives whose positivity is assumed'))
+    return {'ok': p.returncode == 0 and not foreign and clean, 'cmd': 'cd /verif/coq && ' + ' '.join(cmd), 'axioms': names, 'tail': out[-1500:],
+            'wall_s': round(time.time() - t0, 1)}
+
+
 def audit_sources():
     """Forbidden vernacular anywhere in the development (Variables/Hypotheses are allowed inside Sections only)."""
     bad = []
